@@ -280,6 +280,34 @@ pub fn reverse_standard(path: &[u8]) -> Option<Vec<u8>> {
     Some(out)
 }
 
+/// Canonical form of a standard path: reserved bits cleared (PathMeta RSV, InfoField flag bits other than
+/// C/P and its reserved byte, HopField flag bits other than the two router alerts). Reserved bits carry no
+/// meaning and need not survive a reversal. Returns the input unchanged if it is not a well-formed standard path.
+pub fn canon_standard(path: &[u8]) -> Vec<u8> {
+    let mut p = path.to_vec();
+    if p.len() < 4 {
+        return p;
+    }
+    let meta = u32::from_be_bytes([p[0], p[1], p[2], p[3]]);
+    let sl = [((meta >> 12) & 0x3f) as usize, ((meta >> 6) & 0x3f) as usize, (meta & 0x3f) as usize];
+    let nseg = sl.iter().filter(|&&x| x > 0).count();
+    let nh: usize = sl.iter().sum();
+    if p.len() != 4 + 8 * nseg + 12 * nh {
+        return p;
+    }
+    let m2 = meta & !(0x3f << 18);
+    p[0..4].copy_from_slice(&m2.to_be_bytes());
+    for i in 0..nseg {
+        p[4 + 8 * i] &= 0x03;
+        p[5 + 8 * i] = 0;
+    }
+    let h0 = 4 + 8 * nseg;
+    for i in 0..nh {
+        p[h0 + 12 * i] &= 0x03;
+    }
+    p
+}
+
 // ------------------------------------------------------------------------------------------------
 // writer (used to build inputs the SDK's encoder cannot or should not produce)
 // ------------------------------------------------------------------------------------------------
